@@ -38,6 +38,10 @@ structure CSt where
   doneAt : Std.HashMap Nat Nat := {}
   joinStart : Std.HashMap Nat Nat := {}
   sNo : Nat := 0
+  /-- identity in force per log (changed by a `setid` that has finished) and the identity in force when
+      each append took the write lock: both hold the write lock, so the order of the `S` lines is the order -/
+  curId : Std.HashMap Nat Bytes := {}
+  appendId : Std.HashMap Nat Bytes := {}
   deadlock : Bool := false
   /-- a goroutine moved although the lock it needs was held (`UX` line) -/
   lockIgnored : Bool := false
@@ -145,6 +149,10 @@ def finishCase (s : CSt) : CSt :=
   let s := s.spec "C14" "noDeadlock" (!s.deadlock) "watchdog: a goroutine neither parked nor finished"
   let s := s.spec "C13" "lockExcludes" (!s.lockIgnored) "a goroutine moved although the lock it needs was held"
   if s.deadlock || s.lockIgnored then s else
+  -- a size-bounded merge trims its log: what is claimed of logs that only grow (causal closure of
+  -- every view, appends chained, merges including the whole source) is not evaluated in such cases;
+  -- correspondence with the model, absence of deadlock and "every head is an entry" still are
+  let bounded := s.ops.any (fun o => o.kind == "join" && o.arg > -1)
   -- every thread of the model has finished
   let s := s.ops.foldl (fun (s : CSt) o =>
     if (w.thr o.tid).rest.isEmpty then s else s.diff s!"unfinished tid={o.tid}" (headOfThread w o.tid) "done") s
@@ -162,6 +170,11 @@ def finishCase (s : CSt) : CSt :=
         let s := if me.next == ie.next then s else s.diff s!"append.next tid={o.tid}" (s.showH me.next) (s.showH ie.next)
         let s := if me.refs == ie.refs then s else s.diff s!"append.refs tid={o.tid}" (s.showH me.refs) (s.showH ie.refs)
         let s := if me.clock == ie.clock then s else s.diff s!"append.clock tid={o.tid}" (toString me.clock.time) (toString ie.clock.time)
+        -- C04 on the implementation's entry: the clock id is the public key of the identity in force
+        -- when the append held the lock
+        let s := match s.appendId[o.tid]? with
+          | some cid => s.spec "C04" "clockIdIsWriter" (ie.clock.id == cid) s!"tid {o.tid} entry {a}"
+          | none => s
         s
     | "join", a :: _ =>
       let s := s.count "cmp:join"
@@ -180,21 +193,21 @@ def finishCase (s : CSt) : CSt :=
       if kind == "values" then
         let s := s.cmpList s!"read.values tid={o.tid}" (hashes seen.values) xs
         let V := s.ents xs
-        s.spec "C13" "readValuesOk" (nodupH (hashes V) && causalOk V && closedOk V) s!"tid {o.tid}"
+        s.spec "C13" "readValuesOk" (nodupH (hashes V) && (bounded || (causalOk V && closedOk V))) s!"tid {o.tid}"
       else if kind == "entries" then
         let s := s.cmpList s!"read.entries tid={o.tid}" (hashes seen.entries) xs (asSet := true)
         let E := s.ents xs
-        s.spec "C13" "readEntriesOk" (nodupH (hashes E) && closedOk E) s!"tid {o.tid}"
+        s.spec "C13" "readEntriesOk" (nodupH (hashes E) && (bounded || closedOk E)) s!"tid {o.tid}"
       else if kind == "snapshot" then
         let s := s.cmpList s!"read.snapshot.values tid={o.tid}" (hashes seen.values) xs
         let s := s.cmpList s!"read.snapshot.heads tid={o.tid}" (hashes seen.heads) ys (asSet := true)
         let V := s.ents xs
         let H := s.ents ys
-        s.spec "C13" "readSnapshotOk" (note == "-" && headsOk V H && nodupH (hashes V) && causalOk V && closedOk V) s!"tid {o.tid} {note}"
+        s.spec "C13" "readSnapshotOk" (note == "-" && nodupH (hashes V) && (bounded || (headsOk V H && causalOk V && closedOk V))) s!"tid {o.tid} {note}"
       else if kind == "iter" then
         let s := s.cmpList s!"read.iter tid={o.tid}" (hashes seen.values).reverse xs
         let V := (s.ents xs).reverse
-        s.spec "C13" "readIterOk" (nodupH (hashes V) && causalOk V && closedOk V) s!"tid {o.tid}"
+        s.spec "C13" "readIterOk" (nodupH (hashes V) && (bounded || (causalOk V && closedOk V))) s!"tid {o.tid}"
       else if kind == "heads" || kind == "rawheads" || kind == "json" then
         let s := s.cmpList s!"read.{kind} tid={o.tid}" (hashes r.hs) xs (asSet := true)
         s.spec "C13" "readHeadsOk" (nodupH (s.hs xs)) s!"tid {o.tid}"
@@ -210,10 +223,12 @@ def finishCase (s : CSt) : CSt :=
     let H := s.ents raw
     let V := s.ents vals
     let s := s.spec "C14" "headsAreEntries" (H.all (fun h => has E h.hash)) s!"log {l}"
+    if bounded then s else
     let s := s.spec "C13" "finalHeadsOk" (headsOk E H) s!"log {l}"
     let s := s.spec "C14" "finalClosed" (closedOk E) s!"log {l}"
     let s := s.spec "C13" "finalValuesOk" (valuesOk .lww E V) s!"log {l}"
     s) s
+  if bounded then s else
   -- appends: exactly once, and chained in lock order
   let finalE (l : Nat) : List String := match s.finalO.find? (fun p => p.1 == l) with | some p => p.2.1 | none => []
   let aliasOf (tid : Nat) : Option String := match (s.ops.getD tid default).res with
@@ -257,7 +272,7 @@ def handleConc (s : CSt) (line : String) : CSt :=
   match t with
   | "H" :: idx :: _ =>
     { s with uni := {}, logs := #[], ops := #[], world := none, lockOrder := #[], doneAt := {}, joinStart := {},
-             sNo := 0, deadlock := false, lockIgnored := false, finalO := #[], hist := idx }
+             sNo := 0, curId := {}, appendId := {}, deadlock := false, lockIgnored := false, finalO := #[], hist := idx }
   | ["N", l, logId, clk, sk] =>
     let lg : Log := { id := strBytes logId, entries := [], heads := [], nextIdx := [],
                       clock := { id := strBytes clk, time := 0 }, sortFn := parseSort sk }
@@ -287,7 +302,14 @@ def handleConc (s : CSt) (line : String) : CSt :=
     let (w', reached) := advanceT t 64 w (frm != "blocked")
     let s := if reached == to then s else s.diff s!"sched.to tid={t} from={frm}" reached to
     let o := s.ops.getD t default
-    let s := if to == "append.locked" then { s with lockOrder := s.lockOrder.push (o.log, t) } else s
+    let s := if to == "append.locked" then
+        { s with lockOrder := s.lockOrder.push (o.log, t),
+                 appendId := s.appendId.insert t (s.curId.getD o.log (s.logs.getD o.log default).clock.id) } else s
+    let s := if to == "done" && o.kind == "setid" then
+        match o.res with
+        | _ :: c :: _ => { s with curId := s.curId.insert o.log (strBytes c) }
+        | _ => s
+      else s
     let s := if to == "done" then { s with doneAt := s.doneAt.insert t s.sNo } else s
     let s := if frm == "join.enter" then { s with joinStart := s.joinStart.insert t s.sNo } else s
     { s with world := some w' }
